@@ -538,3 +538,565 @@ Proof.
   - discriminate.
   - change (fst (exec s (now, OSvc evs)) <> Abort). rewrite exec_svc by exact HI. discriminate.
 Qed.
+
+(** ** Batch counters: every stored key is below the current batch (or equal to it once the
+    batch has been completed) *)
+Definition batch_bound (x : sctx) : Z := x_bc x + (if x_open x then 0 else 1).
+
+Definition KeysInv (s : state) : Prop :=
+  forall name f x, get name (feeds s) = Some f -> get (f_ctx f) (ctxs s) = Some x ->
+    keys_below (batch_bound x) (feed_vals s name).
+
+Lemma KeysInv_init : KeysInv init.
+Proof. intros name f x H. discriminate. Qed.
+
+(** the service module completes a batch only while it is running (BatchState = BATCHRUNNING):
+    the hypothesis on histories, checked on every run by [Check.sevs_consistent] *)
+Definition sev_wfb (s : state) (e : sev) : bool :=
+  match e with
+  | SDone c _ _ _ _ => match get c (ctxs s) with Some x => x_open x | None => true end
+  | _ => true
+  end.
+Fixpoint sevs_wfb (s : state) (now : Z) (evs : list sev) : bool :=
+  match evs with
+  | [] => true
+  | e :: evs' => sev_wfb s e && sevs_wfb (snd (do_sev s now e)) now evs'
+  end.
+Definition step_wfb (s : state) (st : step) : bool :=
+  match snd st with OSvc evs => sevs_wfb s (fst st) evs | _ => true end.
+Fixpoint run_wfb (s : state) (h : list step) : bool :=
+  match h with
+  | [] => true
+  | st :: h' => step_wfb s st && run_wfb (exec_state s st) h'
+  end.
+
+Lemma Keys_upd s name f x x' run' pau' :
+  Inv s -> KeysInv s -> get name (feeds s) = Some f -> get (f_ctx f) (ctxs s) = Some x ->
+  batch_bound x <= batch_bound x' ->
+  KeysInv (upd_state s (f_ctx f) x' run' pau').
+Proof.
+  intros HI HK Hf Hx Hb n g x0. unfold upd_state, feed_vals. cbn [feeds ctxs vals]. intros Hg Hx0.
+  destruct (Z.eq_dec n name) as [->|Hne].
+  - assert (g = f) by congruence. subst g. rewrite get_set_same in Hx0. inversion Hx0; subst x0.
+    eapply keys_below_mono; [exact Hb|]. exact (HK _ _ _ Hf Hx).
+  - assert (Hc : f_ctx g <> f_ctx f) by (intros Hc; apply Hne; eapply feed_ctx_inj; eauto).
+    rewrite get_set_other in Hx0 by exact Hc. exact (HK _ _ _ Hg Hx0).
+Qed.
+
+Lemma Keys_set_vals s name f x l' :
+  KeysInv s -> get name (feeds s) = Some f -> get (f_ctx f) (ctxs s) = Some x ->
+  keys_below (batch_bound x) l' -> KeysInv (set_vals s name l').
+Proof.
+  intros HK Hf Hx Hl n g x0. unfold set_vals, feed_vals. cbn [feeds ctxs vals]. intros Hg Hx0.
+  destruct (Z.eq_dec n name) as [->|Hne].
+  - assert (g = f) by congruence. subst g. assert (x0 = x) by congruence. subst x0.
+    rewrite get_set_same. exact Hl.
+  - rewrite get_set_other by exact Hne. exact (HK _ _ _ Hg Hx0).
+Qed.
+
+Lemma Keys_set_feed s name f f' :
+  KeysInv s -> get name (feeds s) = Some f -> f_ctx f' = f_ctx f -> KeysInv (set_feed s name f').
+Proof.
+  intros HK Hf Hc n g x0. unfold set_feed, feed_vals. cbn [feeds ctxs vals]. intros Hg Hx0.
+  destruct (Z.eq_dec n name) as [->|Hne].
+  - rewrite get_set_same in Hg. inversion Hg; subst g. rewrite Hc in Hx0. exact (HK _ _ _ Hf Hx0).
+  - rewrite get_set_other in Hg by exact Hne. exact (HK _ _ _ Hg Hx0).
+Qed.
+
+Lemma Keys_create s a : Inv s -> KeysInv s -> KeysInv (snd (do_create s a)).
+Proof.
+  intros HI HK. unfold do_create.
+  destruct (create_basic a) eqn:Hb; [|exact HK]. cbn [negb].
+  destruct (has (c_name a) (feeds s)) eqn:Hh; [exact HK|].
+  destruct (create_ctx_ok a); [|exact HK]. cbn [negb snd].
+  assert (Hn : get (c_name a) (feeds s) = None).
+  { unfold has in Hh. destruct (get (c_name a) (feeds s)); [discriminate|reflexivity]. }
+  destruct (inv_nofeed s HI _ Hn) as (Vn & _).
+  intros n g x0. unfold enqueue, set_feed, feed_vals. cbn [feeds byctx vals idx_run idx_pau ctxs next_ctx].
+  replace (PAUSED =? RUNNING) with false by reflexivity. cbn [feeds byctx vals idx_run idx_pau ctxs next_ctx].
+  intros Hg Hx0. destruct (Z.eq_dec n (c_name a)) as [->|Hne].
+  - unfold feed_vals in Vn. rewrite Vn. constructor.
+  - rewrite get_set_other in Hg by exact Hne.
+    destruct (inv_feed s HI _ _ Hg) as (_ & _ & _ & x1 & Hx1 & _).
+    destruct (inv_ctx s HI _ _ Hx1) as (Hlt & _).
+    rewrite get_set_other in Hx0 by lia. exact (HK _ _ _ Hg Hx0).
+Qed.
+
+Lemma Keys_start s name sender : Inv s -> KeysInv s -> KeysInv (snd (do_start s name sender)).
+Proof.
+  intros HI HK. unfold do_start. destruct (sender <? 0); [exact HK|].
+  destruct (get name (feeds s)) as [f|] eqn:Hf; [|exact HK].
+  destruct (negb (sender =? f_creator f)); [exact HK|].
+  destruct (get (f_ctx f) (ctxs s)) as [x|] eqn:Hx; [|exact HK].
+  destruct (x_state x =? RUNNING); [exact HK|].
+  destruct (negb (sender =? x_consumer x)); [exact HK|].
+  destruct (negb (x_state x =? PAUSED)); [exact HK|]. cbn [snd]. rewrite start_state.
+  eapply Keys_upd; eauto. unfold batch_bound. cbn [ctx_with_state x_bc x_open]. lia.
+Qed.
+
+Lemma Keys_pause s name sender : Inv s -> KeysInv s -> KeysInv (snd (do_pause s name sender)).
+Proof.
+  intros HI HK. unfold do_pause. destruct (sender <? 0); [exact HK|].
+  destruct (get name (feeds s)) as [f|] eqn:Hf; [|exact HK].
+  destruct (negb (sender =? f_creator f)); [exact HK|].
+  destruct (get (f_ctx f) (ctxs s)) as [x|] eqn:Hx; [|exact HK].
+  destruct (negb (x_state x =? RUNNING)); [exact HK|].
+  destruct (negb (sender =? x_consumer x)); [exact HK|]. cbn [snd]. rewrite pause_state.
+  eapply Keys_upd; eauto. unfold batch_bound. cbn [ctx_with_state x_bc x_open]. lia.
+Qed.
+
+(** what an edit does to the state, in one equation *)
+Definition edit_result (s : state) (a : edit_args) (f : feed) (x' : sctx) : state :=
+  let s1 := set_ctx s (f_ctx f) x' in
+  if 0 <? e_lh a then
+    set_feed (set_vals s1 (e_name a) (edit_trim (e_lh a) (feed_vals s (e_name a)))) (e_name a)
+             (mkFeed (f_agg f) (f_path f) (e_lh a) (f_ctx f) (f_creator f))
+  else set_feed s1 (e_name a) f.
+
+Lemma do_edit_cases s a :
+  (fst (do_edit s a) = Rej /\ snd (do_edit s a) = s)
+  \/ exists f x x', edit_basic a = true /\ get (e_name a) (feeds s) = Some f /\ e_sender a = f_creator f
+       /\ get (f_ctx f) (ctxs s) = Some x /\ update_ctx x a = Some x' /\ fst (do_edit s a) = Ok
+       /\ (forall n, feed_vals (snd (do_edit s a)) n = feed_vals (edit_result s a f x') n)
+       /\ feeds (snd (do_edit s a)) = feeds (edit_result s a f x')
+       /\ ctxs (snd (do_edit s a)) = ctxs (edit_result s a f x').
+Proof.
+  unfold do_edit. destruct (edit_basic a) eqn:Hb; [|left; split; reflexivity]. cbn [negb].
+  destruct (get (e_name a) (feeds s)) as [f|] eqn:Hf; [|left; split; reflexivity].
+  destruct (e_sender a =? f_creator f) eqn:Hs; [|left; split; reflexivity]. cbn [negb].
+  destruct (get (f_ctx f) (ctxs s)) as [x|] eqn:Hx; [|left; split; reflexivity].
+  destruct (update_ctx x a) as [x'|] eqn:Hu; [|left; split; reflexivity].
+  right. exists f, x, x'. split; [reflexivity|]. split; [reflexivity|]. split; [lia|].
+  split; [exact Hx|]. split; [exact Hu|].
+  unfold edit_result. cbv zeta. destruct (0 <? e_lh a) eqn:Hpos; cbn [fst snd].
+  - split; [reflexivity|].
+    change (feed_vals (set_ctx s (f_ctx f) x') (e_name a)) with (feed_vals s (e_name a)).
+    unfold edit_trim. cbv zeta.
+    destruct (e_lh a <? Z.of_nat (length (feed_vals s (e_name a)))) eqn:Ht.
+    + split; [|split]; reflexivity.
+    + split; [|split; reflexivity]. intros n. unfold feed_vals, set_feed, set_vals, set_ctx. cbn [vals].
+      destruct (Z.eq_dec n (e_name a)) as [->|Hne].
+      * rewrite get_set_same. reflexivity.
+      * rewrite get_set_other by exact Hne. reflexivity.
+  - split; [reflexivity|]. split; [|split]; reflexivity.
+Qed.
+
+Lemma Keys_edit s a : Inv s -> KeysInv s -> KeysInv (snd (do_edit s a)).
+Proof.
+  intros HI HK.
+  destruct (do_edit_cases s a) as [[_ E]|(f & x & x' & Hb & Hf & Hs & Hx & Hu & _ & FV & FE & CE)]; [rewrite E; exact HK|].
+  intros n g x0. rewrite FV, FE, CE. revert n g x0. fold (KeysInv (edit_result s a f x')).
+  destruct (update_ctx_frame x a x' Hu) as (U1 & U2 & U3 & U4 & U5 & U6 & _).
+  assert (Hbb : batch_bound x' = batch_bound x) by (unfold batch_bound; rewrite U3, U5; reflexivity).
+  assert (HK1 : KeysInv (set_ctx s (f_ctx f) x')).
+  { rewrite set_ctx_upd. eapply Keys_upd; eauto. lia. }
+  assert (Hx1 : get (f_ctx f) (ctxs (set_ctx s (f_ctx f) x')) = Some x').
+  { unfold set_ctx. cbn [ctxs]. apply get_set_same. }
+  unfold edit_result. cbv zeta. destruct (0 <? e_lh a).
+  - eapply Keys_set_feed; [|exact Hf|reflexivity].
+    eapply Keys_set_vals; [exact HK1|exact Hf|exact Hx1|].
+    apply edit_trim_keys. rewrite Hbb. exact (HK _ _ _ Hf Hx).
+  - eapply Keys_set_feed; [exact HK1|exact Hf|reflexivity].
+Qed.
+
+(** the response callback as one equation *)
+Lemma handler_response_eq s now c outs x name f :
+  Inv s -> get c (ctxs s) = Some x -> feed_by_ctx s c = Some (name, f) ->
+  handler_response s now c outs
+  = (Ok, if x_bthr x <=? Z.of_nat (length outs)
+         then set_vals s name (set_feed_value (feed_vals s name) (x_bc x) (f_lh f)
+                                 (aggregate (f_agg f) (map (extract (f_path f)) outs), now))
+         else s).
+Proof.
+  intros HI Hx Hfb. destruct (inv_ctx s HI _ _ Hx) as (_ & _ & T2 & _).
+  unfold handler_response. rewrite Hx, Hfb. destruct outs as [|o outs].
+  - simpl length. destruct (Z.of_nat 0 <? x_bthr x) eqn:E; [|lia].
+    destruct (x_bthr x <=? Z.of_nat 0) eqn:E2; [lia|reflexivity].
+  - destruct (Z.of_nat (length (o :: outs)) <? x_bthr x) eqn:E;
+      destruct (x_bthr x <=? Z.of_nat (length (o :: outs))) eqn:E2; try lia; reflexivity.
+Qed.
+
+Lemma feed_vals_close_batch s c n : feed_vals (close_batch s c) n = feed_vals s n.
+Proof. unfold close_batch. destruct (get c (ctxs s)); reflexivity. Qed.
+
+Lemma Keys_do_sev s now e : Inv s -> KeysInv s -> sev_wfb s e = true -> KeysInv (snd (do_sev s now e)).
+Proof.
+  intros HI HK Hwf. destruct e as [c|c bc bthr outs tol|c].
+  - unfold do_sev. destruct (get c (ctxs s)) as [x|] eqn:Hx; [|exact HK]. cbn [snd].
+    rewrite set_ctx_upd. destruct (ctx_has_feed s c x HI Hx) as (name & f & _ & Hf & Hc). subst c.
+    eapply Keys_upd; eauto. unfold batch_bound. cbn [x_bc x_open]. destruct (x_open x); lia.
+  - unfold do_sev. destruct (get c (ctxs s)) as [x|] eqn:Hx.
+    + destruct (ctx_has_feed s c x HI Hx) as (name & f & Hfb & Hf & Hc).
+      rewrite (handler_response_eq s now c outs x name f HI Hx Hfb). cbn [snd].
+      unfold sev_wfb in Hwf. rewrite Hx in Hwf. subst c.
+      pose proof (HK _ _ _ Hf Hx) as Hkeys. unfold batch_bound in Hkeys. rewrite Hwf, Z.add_0_r in Hkeys.
+      set (s1 := if x_bthr x <=? Z.of_nat (length outs) then _ else s).
+      assert (HI1 : Inv s1 /\ KeysInv (upd_state s1 (f_ctx f) (ctx_with_open x false) (idx_run s1) (idx_pau s1))).
+      { unfold s1. destruct (x_bthr x <=? Z.of_nat (length outs)).
+        - destruct (inv_feed s HI _ _ Hf) as (_ & L & _).
+          set (l' := set_feed_value _ _ _ _).
+          assert (HIv : Inv (set_vals s name l')).
+          { eapply Inv_set_vals; eauto. apply set_feed_value_length. lia. }
+          split; [exact HIv|].
+          intros n g x0. unfold upd_state, set_vals, feed_vals. cbn [feeds ctxs vals]. intros Hg Hx0.
+          destruct (Z.eq_dec n name) as [->|Hne].
+          + assert (g = f) by congruence. subst g. rewrite get_set_same in Hx0. inversion Hx0; subst x0.
+            rewrite get_set_same. unfold batch_bound. cbn [ctx_with_open x_bc x_open].
+            apply set_feed_value_keys. exact Hkeys.
+          + assert (Hc : f_ctx g <> f_ctx f) by (intros Hc; apply Hne; eapply feed_ctx_inj; eauto).
+            rewrite get_set_other in Hx0 by exact Hc. rewrite get_set_other by exact Hne.
+            exact (HK _ _ _ Hg Hx0).
+        - split; [exact HI|]. eapply Keys_upd; eauto.
+          unfold batch_bound. cbn [ctx_with_open x_bc x_open]. destruct (x_open x); lia. }
+      assert (Hx1 : get (f_ctx f) (ctxs s1) = Some x).
+      { unfold s1. destruct (x_bthr x <=? Z.of_nat (length outs)); exact Hx. }
+      rewrite (close_batch_upd s1 _ x Hx1). exact (proj2 HI1).
+    + unfold handler_response. rewrite Hx. cbn [snd]. unfold close_batch. rewrite Hx. exact HK.
+  - destruct (get c (ctxs s)) as [x|] eqn:Hx.
+    + destruct (ctx_has_feed s c x HI Hx) as (name & f & Hfb & Hf & Hc).
+      rewrite (autopause_state s now c x name f Hx Hfb). cbn [snd]. subst c.
+      eapply Keys_upd; eauto. unfold batch_bound. cbn [ctx_with_open ctx_with_state x_bc x_open].
+      destruct (x_open x); lia.
+    + unfold do_sev. rewrite Hx. exact HK.
+Qed.
+
+Lemma Keys_do_sevs now evs : forall s, Inv s -> KeysInv s -> sevs_wfb s now evs = true ->
+  KeysInv (snd (do_sevs s now evs)).
+Proof.
+  induction evs as [|e evs IH]; intros s HI HK Hwf; simpl; [exact HK|].
+  simpl in Hwf. apply andb_prop in Hwf. destruct Hwf as [Hw1 Hw2].
+  destruct (Inv_do_sev s now e HI) as [Hok HI1]. pose proof (Keys_do_sev s now e HI HK Hw1) as HK1.
+  destruct (do_sev s now e) as [o s1]. cbn [fst snd] in *. subst o. apply IH; assumption.
+Qed.
+
+Lemma Keys_exec s st : Inv s -> KeysInv s -> step_wfb s st = true -> KeysInv (exec_state s st).
+Proof.
+  intros HI HK Hwf. unfold exec_state. destruct st as [now o]. destruct o.
+  - apply Keys_create; assumption.
+  - apply Keys_start; assumption.
+  - apply Keys_pause; assumption.
+  - apply Keys_edit; assumption.
+  - exact HK.
+  - rewrite exec_svc by exact HI. apply Keys_do_sevs; assumption.
+Qed.
+
+Lemma Keys_run h : forall s, Inv s -> KeysInv s -> run_wfb s h = true -> KeysInv (run s h).
+Proof.
+  induction h as [|st h IH]; intros s HI HK Hwf; simpl; [exact HK|].
+  simpl in Hwf. apply andb_prop in Hwf. destruct Hwf as [Hw1 Hw2].
+  apply IH; [apply Inv_exec; exact HI|apply Keys_exec; assumption|exact Hw2].
+Qed.
+
+(** ** C17, clause by clause *)
+
+Lemma query_values_newest s n : query_values s n = newest_first (feed_vals s n).
+Proof. reflexivity. Qed.
+
+Ltac destruct_matches :=
+  repeat match goal with |- context [match ?t with _ => _ end] => destruct t end.
+
+(** (a) a completed batch: exactly one value if the threshold was met - the aggregate, stamped
+    with the block time, put in front of the newest [latest_history - 1] old values - and nothing
+    otherwise; no other feed is touched *)
+Lemma batch_completion_lemma s now c bc bthr outs tol x name f :
+  Inv s -> KeysInv s -> get c (ctxs s) = Some x -> feed_by_ctx s c = Some (name, f) -> x_open x = true ->
+  let s' := snd (do_sev s now (SDone c bc bthr outs tol)) in
+  (forall n, n <> name -> query_values s' n = query_values s n)
+  /\ query_values s' name =
+     if x_bthr x <=? Z.of_nat (length outs)
+     then (aggregate (f_agg f) (map (extract (f_path f)) outs), now)
+            :: firstn (Z.to_nat (f_lh f - 1)) (query_values s name)
+     else query_values s name.
+Proof.
+  intros HI HK Hx Hfb Hopen. cbv zeta. unfold do_sev.
+  rewrite (handler_response_eq s now c outs x name f HI Hx Hfb). cbn [snd].
+  destruct (feed_by_ctx_spec s c name f HI Hfb) as [Hf Hc]. subst c.
+  pose proof (HK _ _ _ Hf Hx) as Hkeys. unfold batch_bound in Hkeys. rewrite Hopen, Z.add_0_r in Hkeys.
+  split.
+  - intros n Hne. rewrite !query_values_newest, feed_vals_close_batch.
+    destruct (x_bthr x <=? Z.of_nat (length outs)); [|reflexivity].
+    unfold feed_vals, set_vals. cbn [vals]. rewrite get_set_other by exact Hne. reflexivity.
+  - rewrite !query_values_newest, feed_vals_close_batch.
+    destruct (x_bthr x <=? Z.of_nat (length outs)); [|reflexivity].
+    unfold feed_vals at 1. unfold set_vals. cbn [vals]. rewrite get_set_same.
+    apply newest_first_set_feed_value. exact Hkeys.
+Qed.
+
+(** (b) the stored value is the configured aggregate in the specification's sense *)
+Lemma aggregate_is_spec f o outs p :
+  in_range (extract p o) ->
+  aggregate f (map (extract p) (o :: outs)) = spec_aggregate f (map (extract p) (o :: outs)).
+Proof. intros H. simpl map. apply aggregate_spec. exact H. Qed.
+
+(** (c) no other service event and no message except a successful edit changes any stored value *)
+Lemma sev_values_frame s now e n :
+  (forall c bc bthr outs tol, e <> SDone c bc bthr outs tol) ->
+  query_values (snd (do_sev s now e)) n = query_values s n.
+Proof.
+  intros Hne. rewrite !query_values_newest. f_equal. destruct e as [c|c bc bthr outs tol|c].
+  - unfold do_sev. destruct (get c (ctxs s)); reflexivity.
+  - exfalso. eapply Hne. reflexivity.
+  - unfold do_sev. destruct (get c (ctxs s)); [|reflexivity]. cbn [snd].
+    unfold handler_state_changed. destruct_matches; reflexivity.
+Qed.
+
+Lemma create_values s a n : query_values (snd (do_create s a)) n = query_values s n.
+Proof. unfold do_create. destruct_matches; reflexivity. Qed.
+Lemma start_values s name sender n : query_values (snd (do_start s name sender)) n = query_values s n.
+Proof. unfold do_start. destruct_matches; reflexivity. Qed.
+Lemma pause_values s name sender n : query_values (snd (do_pause s name sender)) n = query_values s n.
+Proof. unfold do_pause. destruct_matches; reflexivity. Qed.
+
+(** (d) an edit keeps exactly the newest [latest_history] values (all of them when it grows) *)
+Definition edit_applies (s : state) (a : edit_args) (n : Z) : bool :=
+  (e_name a =? n) && (0 <? e_lh a) && eqb (fst (do_edit s a)) Ok.
+
+Lemma edit_values s a n :
+  query_values (snd (do_edit s a)) n =
+  if edit_applies s a n then firstn (Z.to_nat (e_lh a)) (query_values s n) else query_values s n.
+Proof.
+  unfold edit_applies.
+  destruct (do_edit_cases s a) as [[E1 E2]|(f & x & x' & Hb & Hf & Hs & Hx & Hu & Hok & FV & _)].
+  - rewrite E1, E2. replace (eqb Rej Ok) with false by reflexivity. rewrite andb_false_r. reflexivity.
+  - rewrite Hok. replace (eqb Ok Ok) with true by reflexivity. rewrite andb_true_r.
+    rewrite !query_values_newest, FV. unfold edit_result. cbv zeta.
+    destruct (0 <? e_lh a) eqn:Hpos.
+    + rewrite andb_true_r. unfold feed_vals at 1. unfold set_feed, set_vals, set_ctx. cbn [vals].
+      destruct (e_name a =? n) eqn:En.
+      * assert (e_name a = n) by lia. subst n. rewrite get_set_same.
+        apply newest_first_edit_trim. lia.
+      * rewrite get_set_other by lia. reflexivity.
+    + rewrite andb_false_r. reflexivity.
+Qed.
+
+(** ** The reference ledger of one feed: every value ever produced (newest first) and how many
+    of them are kept.  It is updated by the two rules of the property only:
+    a produced value is kept and the window is capped by latest-history; an edit caps the window. *)
+Definition ledger := (list fval * Z)%type.
+
+Definition ledger_sev (s : state) (now name : Z) (e : sev) (L : ledger) : ledger :=
+  match e with
+  | SDone c _ _ outs _ =>
+      match get c (ctxs s), feed_by_ctx s c with
+      | Some x, Some (n, f) =>
+          if (n =? name) && (x_bthr x <=? Z.of_nat (length outs))
+          then ((aggregate (f_agg f) (map (extract (f_path f)) outs), now) :: fst L,
+                Z.min (f_lh f) (snd L + 1))
+          else L
+      | _, _ => L
+      end
+  | _ => L
+  end.
+
+Fixpoint ledger_sevs (s : state) (now name : Z) (evs : list sev) (L : ledger) : ledger :=
+  match evs with
+  | [] => L
+  | e :: evs' => ledger_sevs (snd (do_sev s now e)) now name evs' (ledger_sev s now name e L)
+  end.
+
+Definition ledger_step (s : state) (st : step) (name : Z) (L : ledger) : ledger :=
+  match snd st with
+  | OSvc evs => ledger_sevs s (fst st) name evs L
+  | OEdit a => if edit_applies s a name then (fst L, Z.min (snd L) (e_lh a)) else L
+  | _ => L
+  end.
+
+Fixpoint ledger_run (s : state) (h : list step) (name : Z) (L : ledger) : ledger :=
+  match h with
+  | [] => L
+  | st :: h' => ledger_run (exec_state s st) h' name (ledger_step s st name L)
+  end.
+
+(** the feed's query answers with the newest [snd L] values of the ledger *)
+Definition ledger_ok (s : state) (name : Z) (L : ledger) : Prop :=
+  query_values s name = firstn (Z.to_nat (snd L)) (fst L) /\ 0 <= snd L <= Z.of_nat (length (fst L)).
+
+Lemma ledger_sev_ok s now name e L :
+  Inv s -> KeysInv s -> sev_wfb s e = true -> ledger_ok s name L ->
+  ledger_ok (snd (do_sev s now e)) name (ledger_sev s now name e L).
+Proof.
+  intros HI HK Hwf [Hq Hb].
+  destruct e as [c|c bc bthr outs tol|c];
+    try (unfold ledger_sev; split; [rewrite sev_values_frame by (intros; discriminate); exact Hq|exact Hb]).
+  unfold ledger_sev, ledger_ok. destruct (get c (ctxs s)) as [x|] eqn:Hx.
+  - destruct (ctx_has_feed s c x HI Hx) as (n0 & f & Hfb & Hf & Hc). rewrite Hfb.
+    unfold sev_wfb in Hwf. rewrite Hx in Hwf.
+    destruct (batch_completion_lemma s now c bc bthr outs tol x n0 f HI HK Hx Hfb Hwf) as [Hoth Hme].
+    cbv zeta in Hoth, Hme. destruct (n0 =? name) eqn:En.
+    + assert (n0 = name) by lia. subst n0. cbn [andb]. rewrite Hme.
+      destruct (x_bthr x <=? Z.of_nat (length outs)); [|split; assumption].
+      destruct (inv_feed s HI _ _ Hf) as (_ & L1 & _).
+      cbn [fst snd]. split.
+      * rewrite Hq. apply firstn_window_push; lia.
+      * simpl length. lia.
+    + cbn [andb]. split; [|exact Hb]. rewrite Hoth by lia. exact Hq.
+  - split; [|exact Hb]. unfold do_sev, handler_response. rewrite Hx. cbn [snd].
+    unfold close_batch. rewrite Hx. exact Hq.
+Qed.
+
+Lemma ledger_sevs_ok now name evs : forall s L,
+  Inv s -> KeysInv s -> sevs_wfb s now evs = true -> ledger_ok s name L ->
+  ledger_ok (snd (do_sevs s now evs)) name (ledger_sevs s now name evs L).
+Proof.
+  induction evs as [|e evs IH]; intros s L HI HK Hwf HL; simpl; [exact HL|].
+  simpl in Hwf. apply andb_prop in Hwf. destruct Hwf as [Hw1 Hw2].
+  destruct (Inv_do_sev s now e HI) as [Hok HI1]. pose proof (Keys_do_sev s now e HI HK Hw1) as HK1.
+  pose proof (ledger_sev_ok s now name e L HI HK Hw1 HL) as HL1.
+  destruct (do_sev s now e) as [o s1]. cbn [fst snd] in *. subst o. apply IH; assumption.
+Qed.
+
+Lemma ledger_step_ok s st name L :
+  Inv s -> KeysInv s -> step_wfb s st = true -> ledger_ok s name L ->
+  ledger_ok (exec_state s st) name (ledger_step s st name L).
+Proof.
+  intros HI HK Hwf [Hq Hb]. unfold exec_state, ledger_step. destruct st as [now o]. destruct o; cbn [fst snd exec].
+  - split; [rewrite create_values; exact Hq|exact Hb].
+  - split; [rewrite start_values; exact Hq|exact Hb].
+  - split; [rewrite pause_values; exact Hq|exact Hb].
+  - unfold ledger_ok. rewrite edit_values. destruct (edit_applies s a name) eqn:Ea; [|split; assumption].
+    cbn [fst snd]. unfold edit_applies in Ea.
+    apply andb_prop in Ea. destruct Ea as [Ea _]. apply andb_prop in Ea. destruct Ea as [_ Hpos].
+    split; [|lia]. rewrite Hq. apply firstn_window_trim; lia.
+  - split; assumption.
+  - change (ledger_ok (snd (exec s (now, OSvc evs))) name (ledger_sevs s now name evs L)).
+    rewrite exec_svc by exact HI. cbn [snd]. apply ledger_sevs_ok; try assumption. split; assumption.
+Qed.
+
+Lemma ledger_run_ok h : forall s name L,
+  Inv s -> KeysInv s -> run_wfb s h = true -> ledger_ok s name L ->
+  ledger_ok (run s h) name (ledger_run s h name L).
+Proof.
+  induction h as [|st h IH]; intros s name L HI HK Hwf HL; simpl; [exact HL|].
+  simpl in Hwf. apply andb_prop in Hwf. destruct Hwf as [Hw1 Hw2].
+  apply IH; [apply Inv_exec; exact HI|apply Keys_exec; assumption|exact Hw2|].
+  apply ledger_step_ok; assumption.
+Qed.
+
+Lemma ledger_ok_init name : ledger_ok init name ([], 0).
+Proof. split; [reflexivity|simpl; lia]. Qed.
+
+(** the window never exceeds latest-history *)
+Lemma stored_at_most_lh s name f : Inv s -> get name (feeds s) = Some f ->
+  Z.of_nat (length (query_values s name)) <= f_lh f /\ 1 <= f_lh f <= MaxLatestHistory.
+Proof.
+  intros HI Hf. destruct (inv_feed s HI _ _ Hf) as (_ & L & Len & _).
+  rewrite query_values_newest, newest_first_length. split; assumption.
+Qed.
+
+Lemma no_feed_no_values s name : Inv s -> get name (feeds s) = None -> query_values s name = [].
+Proof.
+  intros HI Hn. destruct (inv_nofeed s HI _ Hn) as (V & _). rewrite query_values_newest, V. reflexivity.
+Qed.
+
+(** (e) the running / paused index mirrors the state of the service context *)
+Lemma mirror_lemma s name f : Inv s -> get name (feeds s) = Some f ->
+  exists x, get (f_ctx f) (ctxs s) = Some x
+    /\ (x_state x = RUNNING \/ x_state x = PAUSED)
+    /\ (smem name (idx_run s) = true <-> x_state x = RUNNING)
+    /\ (smem name (idx_pau s) = true <-> x_state x = PAUSED).
+Proof.
+  intros HI Hf. destruct (feed_ctx_known s name f HI Hf) as (x & Hx & _ & R & P & _ & _ & St).
+  exists x. split; [exact Hx|]. split; [exact St|]. rewrite R, P. split; lia.
+Qed.
+
+Lemma unknown_feed_not_indexed s name : Inv s -> get name (feeds s) = None ->
+  smem name (idx_run s) = false /\ smem name (idx_pau s) = false.
+Proof. intros HI Hn. destruct (inv_nofeed s HI _ Hn) as (_ & R & P). split; assumption. Qed.
+
+(** the automatic pause (consumer out of funds): the context is paused and the feed moves to the
+    paused index in the same step *)
+Lemma auto_pause_lemma s now c x name f :
+  Inv s -> get c (ctxs s) = Some x -> feed_by_ctx s c = Some (name, f) ->
+  let s' := snd (do_sev s now (SAutoPause c)) in
+  (exists x', get c (ctxs s') = Some x' /\ x_state x' = PAUSED)
+  /\ smem name (idx_run s') = false /\ smem name (idx_pau s') = true.
+Proof.
+  intros HI Hx Hfb. cbv zeta. rewrite (autopause_state s now c x name f Hx Hfb). cbn [snd].
+  unfold upd_state. cbn [ctxs idx_run idx_pau]. split; [|split].
+  - eexists. rewrite get_set_same. split; reflexivity.
+  - apply smem_srem_same.
+  - apply smem_sadd_same.
+Qed.
+
+(** (f) only the creator controls the feed *)
+Lemma stranger_rejected s now o name sender :
+  control_of o = Some (name, sender) ->
+  (forall f, get name (feeds s) = Some f -> sender <> f_creator f) ->
+  exec s (now, o) = (Rej, s).
+Proof.
+  intros Hc Hs. destruct o; simpl in Hc; try discriminate; inversion Hc; subst; cbn [exec].
+  - unfold do_start. destruct (sender <? 0); [reflexivity|].
+    destruct (get name (feeds s)) as [f|] eqn:Hf; [|reflexivity].
+    specialize (Hs f eq_refl). destruct (sender =? f_creator f) eqn:E; [lia|reflexivity].
+  - unfold do_pause. destruct (sender <? 0); [reflexivity|].
+    destruct (get name (feeds s)) as [f|] eqn:Hf; [|reflexivity].
+    specialize (Hs f eq_refl). destruct (sender =? f_creator f) eqn:E; [lia|reflexivity].
+  - unfold do_edit. destruct (negb (edit_basic a)); [reflexivity|].
+    destruct (get (e_name a) (feeds s)) as [f|] eqn:Hf; [|reflexivity].
+    specialize (Hs f eq_refl). destruct (e_sender a =? f_creator f) eqn:E; [lia|reflexivity].
+Qed.
+
+Lemma direct_service_message_rejected s now name sender kind :
+  exec s (now, ODirect name sender kind) = (Rej, s).
+Proof. reflexivity. Qed.
+
+Lemma do_sev_feeds s now e : Inv s -> feeds (snd (do_sev s now e)) = feeds s.
+Proof.
+  intros HI. destruct e as [c|c bc bthr outs tol|c].
+  - unfold do_sev. destruct (get c (ctxs s)); reflexivity.
+  - unfold do_sev. destruct (Inv_handler_response s now c outs HI) as (Hok & _ & F & _).
+    destruct (handler_response s now c outs) as [o s1]. cbn [fst snd] in *. subst o. cbn [snd].
+    rewrite <- F. unfold close_batch. destruct (get c (ctxs s1)); reflexivity.
+  - unfold do_sev. destruct (get c (ctxs s)); [|reflexivity]. cbn [snd].
+    unfold handler_state_changed. destruct_matches; reflexivity.
+Qed.
+
+Lemma do_sevs_feeds now evs : forall s, Inv s -> feeds (snd (do_sevs s now evs)) = feeds s.
+Proof.
+  induction evs as [|e evs IH]; intros s HI; simpl; [reflexivity|].
+  destruct (Inv_do_sev s now e HI) as [Hok HI1]. pose proof (do_sev_feeds s now e HI) as F.
+  destruct (do_sev s now e) as [o s1]. cbn [fst snd] in *. subst o. rewrite IH by exact HI1. exact F.
+Qed.
+
+(** a feed never disappears and its creator, context, aggregate function and value path never change *)
+Definition same_identity (f f' : feed) : Prop :=
+  f_creator f' = f_creator f /\ f_ctx f' = f_ctx f /\ f_agg f' = f_agg f /\ f_path f' = f_path f.
+
+Lemma feed_identity_exec s st name f : Inv s -> get name (feeds s) = Some f ->
+  exists f', get name (feeds (exec_state s st)) = Some f' /\ same_identity f f'.
+Proof.
+  intros HI Hf. unfold exec_state. destruct st as [now o]. destruct o; cbn [exec].
+  - unfold do_create. destruct (negb (create_basic a)); [exists f; repeat split; assumption|].
+    destruct (has (c_name a) (feeds s)) eqn:Hh; [exists f; repeat split; assumption|].
+    destruct (negb (create_ctx_ok a)); [exists f; repeat split; assumption|]. cbn [snd].
+    exists f. split; [|repeat split]. unfold enqueue, set_feed.
+    replace (PAUSED =? RUNNING) with false by reflexivity. cbn [feeds].
+    rewrite get_set_other; [exact Hf|]. intros E. subst name. unfold has in Hh. rewrite Hf in Hh. discriminate.
+  - exists f. split; [|repeat split]. rewrite <- Hf. f_equal. unfold do_start. destruct_matches; reflexivity.
+  - exists f. split; [|repeat split]. rewrite <- Hf. f_equal. unfold do_pause. destruct_matches; reflexivity.
+  - destruct (do_edit_cases s a) as [[_ E]|(g & x & x' & Hb & Hg & Hs & Hx & Hu & _ & _ & FE & _)].
+    + rewrite E. exists f. repeat split; assumption.
+    + rewrite FE. unfold edit_result. cbv zeta. destruct (0 <? e_lh a); unfold set_feed; cbn [feeds].
+      * destruct (Z.eq_dec name (e_name a)) as [->|Hne].
+        -- rewrite get_set_same. eexists. split; [reflexivity|]. assert (g = f) by congruence. subst g.
+           repeat split.
+        -- rewrite get_set_other by exact Hne. exists f. repeat split; assumption.
+      * destruct (Z.eq_dec name (e_name a)) as [->|Hne].
+        -- rewrite get_set_same. exists g. split; [reflexivity|]. assert (g = f) by congruence. subst g.
+           repeat split.
+        -- rewrite get_set_other by exact Hne. exists f. repeat split; assumption.
+  - exists f. repeat split; assumption.
+  - change (exists f', get name (feeds (snd (exec s (now, OSvc evs)))) = Some f' /\ same_identity f f').
+    rewrite exec_svc by exact HI. cbn [snd]. rewrite do_sevs_feeds by exact HI.
+    exists f. repeat split; assumption.
+Qed.
+
+Lemma feed_identity_run h : forall s name f, Inv s -> get name (feeds s) = Some f ->
+  exists f', get name (feeds (run s h)) = Some f' /\ same_identity f f'.
+Proof.
+  induction h as [|st h IH]; intros s name f HI Hf; simpl.
+  - exists f. repeat split; assumption.
+  - destruct (feed_identity_exec s st name f HI Hf) as (f1 & Hf1 & I1 & I2 & I3 & I4).
+    destruct (IH _ name f1 (Inv_exec s st HI) Hf1) as (f2 & Hf2 & J1 & J2 & J3 & J4).
+    exists f2. split; [exact Hf2|]. unfold same_identity. repeat split; congruence.
+Qed.
